@@ -385,9 +385,6 @@ func VerifyP2PKLockedProof(proof cashu.Proof, proofSecret nut10.WellKnownSecret)
 
 		if p2pkTags.NSigs > 0 {
 			signaturesRequired = p2pkTags.NSigs
-			if len(p2pkTags.Pubkeys) == 0 {
-				return EmptyPubkeysErr
-			}
 			keys = append(keys, p2pkTags.Pubkeys...)
 		}
 
